@@ -38,6 +38,9 @@ pub struct Case {
     /// the configured path is a symbolic link to the (pre-existing) file, as in `current.log -> app-2026.log`
     #[serde(default)]
     pub symlink: bool,
+    /// scripted roller failures happen AFTER the real roller has archived the file (a follow-up step fails)
+    #[serde(default)]
+    pub flaky_after_moving: bool,
 }
 
 fn text_of(len: usize, charset: u8) -> String {
@@ -83,7 +86,7 @@ pub fn strategy() -> impl Strategy<Value = Case> {
         prop_oneof![3 => Just(vec![]), 1 => prop::collection::vec(prop::bool::weighted(0.4), 1..=6)],
         (prop_oneof![4 => Just(vec![]), 1 => prop::collection::vec(prop::option::weighted(0.3, prop_oneof![Just(0usize), 1usize..12, 1000usize..1100]), 1..=25)], prop::bool::weighted(0.2)),
     )
-        .prop_map(|(limit, append_mode, pre, count, chunks, charset, ops, flaky, (enc_fail, symlink))| Case { limit, append_mode, symlink: symlink && pre.is_some(), pre, count, chunks, charset, ops, flaky, enc_fail })
+        .prop_map(|(limit, append_mode, pre, count, chunks, charset, ops, flaky, (enc_fail, symlink))| Case { limit, append_mode, symlink: symlink && pre.is_some(), pre, count, chunks, charset, flaky_after_moving: !flaky.is_empty() && ops.len() % 2 == 0, ops, flaky, enc_fail })
 }
 
 pub fn check(tmp: &Path, case: &Case, obs: &mut Obs) -> CaseResult {
@@ -116,7 +119,7 @@ fn check_in(dir: &Path, case: &Case, obs: &mut Obs) -> CaseResult {
     let appends_done = Arc::new(std::sync::atomic::AtomicUsize::new(0));
     let mut roller_calls = 0usize; // calls seen by the current appender's roller
     let build = |model_active: &mut Option<Vec<u8>>| -> Result<log4rs::append::rolling_file::RollingFileAppender, Failure> {
-        let policy = Box::new(ObservingPolicy { inner: make_flaky_policy(dir, &TrigSpec::Size(n), &roller, &case.flaky, &failures).unwrap(), log: log.clone() });
+        let policy = Box::new(ObservingPolicy { inner: make_flaky_policy_with(dir, &TrigSpec::Size(n), &roller, &case.flaky, case.flaky_after_moving, &failures).unwrap(), log: log.clone() });
         let a = if case.enc_fail.is_empty() {
             build_appender(&path, case.append_mode, &case.chunks, policy)
         } else {
@@ -216,6 +219,15 @@ fn check_in(dir: &Path, case: &Case, obs: &mut Obs) -> CaseResult {
         );
         let should_roll = true_size > n;
         let rolled = !c.exists_after;
+        if roller_fails && case.flaky_after_moving {
+            // the file is archived, the error is reported, the next record opens a fresh file
+            flaky_hit = true;
+            ensure!(rolled, "C06:failed-roll-state", "op {}: the roller archived the file and failed afterwards, yet the active path still exists", oi);
+            let arch = std::fs::read(dir.join("arch.0.log")).ok();
+            ensure!(arch.as_ref() == Some(&active), "C06:archive-content", "op {}: the roller archived the file before failing: the newest archive holds {:?} bytes, the active file had {}", oi, arch.map(|b| b.len()), active.len());
+            model_active = None;
+            continue;
+        }
         if roller_fails {
             flaky_hit = true;
             ensure!(!rolled && c.on_disk == Some(true_size), "C06:failed-roll-state", "op {}: the roller failed without touching the file, yet the active path changed", oi);
@@ -313,6 +325,76 @@ pub fn check_long(tmp: &Path, c: &Long, obs: &mut Obs) -> CaseResult {
         }
         obs.nontrivial = rolls >= 1;
         obs.class("one-open-file-for-more-than-65536-records");
+        Ok(())
+    })();
+    let _ = std::fs::remove_dir_all(&dir);
+    r
+}
+
+// ---- a user-defined policy that rolls by itself --------------------------------------------------------------------
+
+/// A policy written by a user (the trait is the extension point): when the file is over its limit it closes it with
+/// `LogFile::roll()`, reads the size once more to name the archive, and moves the file away itself.
+#[derive(Debug)]
+struct SelfArchiving {
+    limit: u64,
+    dir: std::path::PathBuf,
+    seen: Arc<Mutex<Vec<(u64, u64, Option<u64>)>>>,
+}
+
+impl log4rs::append::rolling_file::policy::Policy for SelfArchiving {
+    fn process(&self, log: &mut log4rs::append::rolling_file::LogFile) -> anyhow::Result<()> {
+        let before = log.len_estimate();
+        if before > self.limit {
+            log.roll();
+            let after = log.len_estimate();
+            let on_disk = std::fs::metadata(log.path()).ok().map(|m| m.len());
+            let n = self.seen.lock().unwrap().len();
+            self.seen.lock().unwrap().push((before, after, on_disk));
+            std::fs::rename(log.path(), self.dir.join(format!("self-archived-{}-{}.log", n, after)))?;
+        }
+        Ok(())
+    }
+    fn is_pre_process(&self) -> bool {
+        false
+    }
+}
+
+pub fn check_self_archiving(tmp: &Path, c: &Pre, obs: &mut Obs) -> CaseResult {
+    let dir = scratch(tmp, "c06s");
+    let r = (|| -> CaseResult {
+        let path = dir.join("active.log");
+        if c.pre_existing > 0 {
+            std::fs::write(&path, vec![b'p'; c.pre_existing]).unwrap();
+        }
+        let seen = Arc::new(Mutex::new(vec![]));
+        let policy = Box::new(SelfArchiving { limit: c.limit, dir: dir.clone(), seen: seen.clone() });
+        let app = build_appender(&path, c.append_mode, &None, policy).map_err(|e| Failure { sig: "C06:build".into(), msg: e.to_string() })?;
+        let mut size: u64 = if c.append_mode { c.pre_existing as u64 } else { 0 };
+        let mut archived = 0;
+        for (i, len) in c.lens.iter().enumerate() {
+            match catch(|| append_msg(&app, &text_of(*len, 1))) {
+                Err(p) => return fail("C06:panic", format!("append #{} panicked: {}", i, p)),
+                Ok(Err(e)) => return fail("C06:append-error", format!("append #{} failed: {}", i, e)),
+                Ok(Ok(())) => {}
+            }
+            size += *len as u64;
+            if size > c.limit {
+                let s = seen.lock().unwrap().clone();
+                ensure!(s.len() == archived + 1, "C06:roll-deferred", "append #{}: {} bytes against a limit of {}, but the self-archiving policy did not see the file over its limit", i, size, c.limit);
+                let (before, after, on_disk) = s[archived];
+                ensure!(
+                    before == size && after == size && on_disk == Some(size),
+                    "C06:size-accounting",
+                    "append #{}: the policy was shown {} bytes; after it closed the file with LogFile::roll() it was shown {} bytes while the file (still in place) had {:?} bytes; true size {}", i, before, after, on_disk, size
+                );
+                archived += 1;
+                size = 0;
+            }
+            obs.sub_evals += 1;
+        }
+        obs.nontrivial = archived > 0;
+        obs.class_if(archived > 0, "user-defined-policy-reads-the-size-after-roll()");
         Ok(())
     })();
     let _ = std::fs::remove_dir_all(&dir);
@@ -580,7 +662,7 @@ pub fn run(run: &Run) {
     if run.worker.0 == 0 {
         // one long lifetime: thousands of rotations through one appender (counters of any width must keep up)
         let ops: Vec<Op> = (0..6000).map(|i| Op::Abs(20 + (i % 7) * 5)).collect();
-        run.eval_one("size", &Case { limit: 100, append_mode: true, pre: None, count: 2, chunks: None, charset: 0, ops, flaky: vec![], enc_fail: vec![], symlink: false }, &f);
+        run.eval_one("size", &Case { limit: 100, append_mode: true, pre: None, count: 2, chunks: None, charset: 0, ops, flaky: vec![], enc_fail: vec![], symlink: false, flaky_after_moving: false }, &f);
     }
     if run.worker.0 == 1 % run.worker.1 {
         let t = run.tmp.clone();
@@ -597,6 +679,10 @@ pub fn run(run: &Run) {
     let h = move |c: &Pre, o: &mut Obs| check_pre(&tmp3, c, o);
     run.run_replays::<Pre>("pre-processing", &h);
     run.search("pre-processing", run.tier.pick(150, 6_000), pre_strategy(), &h);
+    let tmp4 = run.tmp.clone();
+    let sa = move |c: &Pre, o: &mut Obs| check_self_archiving(&tmp4, c, o);
+    run.run_replays::<Pre>("self-archiving", &sa);
+    run.search("self-archiving", run.tier.pick(100, 4_000), pre_strategy(), &sa);
     let tmp = run.tmp.clone();
     let g = move |c: &Conc, o: &mut Obs| check_conc(&tmp, c, o);
     run.run_replays::<Conc>("contended", &g);
@@ -609,6 +695,13 @@ pub fn replay(part: &str, case: serde_json::Value) -> Option<CaseResult> {
             let tmp = std::env::temp_dir().join(format!("lv-replay-{}", std::process::id()));
             std::fs::create_dir_all(&tmp).ok()?;
             let r = check(&tmp, &serde_json::from_value(case).ok()?, &mut Obs::default());
+            let _ = std::fs::remove_dir_all(&tmp);
+            Some(r)
+        }
+        "self-archiving" => {
+            let tmp = std::env::temp_dir().join(format!("lv-replay-{}", std::process::id()));
+            std::fs::create_dir_all(&tmp).ok()?;
+            let r = check_self_archiving(&tmp, &serde_json::from_value(case).ok()?, &mut Obs::default());
             let _ = std::fs::remove_dir_all(&tmp);
             Some(r)
         }
@@ -640,7 +733,7 @@ pub fn replay(part: &str, case: serde_json::Value) -> Option<CaseResult> {
 pub fn meta() -> EvidenceMeta {
     EvidenceMeta {
         level: "exploration",
-        rule: "cases = limit N in {0,1,2,63,64,1023,1024,1025, random <= 5000} x pre-existing active file (absent / N-1 / N / N+1 / random) x append or truncate mode x window count 1-3 x pattern or multi-chunk encoder x 1-25 operations: appends whose byte length is chosen relative to the room left before the limit (room-3..room+3) or absolute around the 1 KiB buffer, with 1-4-byte characters, and restarts; the real CompoundPolicy(SizeTrigger, FixedWindowRoller) is wrapped in a harness Policy recording len_estimate and fs::metadata().len() at every consultation. Oracle: exactly one consultation per append; len_estimate == on-disk size == model size (pre-existing + records; 0 at open in truncate mode); rotation during this append iff size > N; afterwards the active file is absent or <= N bytes and byte-identical to pre-existing ++ records; the newest archive equals the rolled content. The configured path may be a symbolic link to the pre-existing file. Part long: 70 000 appends of 10 bytes through one open file whose limit is reached after 65 540 of them, accounting checked at every consultation. Part huge: sparse pre-existing files and limits around 4-20 GiB, three appends each, same accounting. Part pre-processing: a user-defined pre-processing policy around the real size trigger and a roller failing on scripted calls: consulted before the record is written, it must be shown the true size every time, also right after a failed roll made the appender close its file. Part contended: 2-4 threads append through one appender whose encoder hands records over in pieces and dawdles; at every consultation len_estimate == on-disk size and the file is rolled iff that size > N. non-trivial = a consultation with |size - N| <= 1, or pre-existing content in append mode, or multi-byte payload, or a scripted roller failure (user-defined roller around the real one that fails on chosen calls and leaves the file in place: accounting and re-triggering must stay exact)".into(),
+        rule: "cases = limit N in {0,1,2,63,64,1023,1024,1025, random <= 5000} x pre-existing active file (absent / N-1 / N / N+1 / random) x append or truncate mode x window count 1-3 x pattern or multi-chunk encoder x 1-25 operations: appends whose byte length is chosen relative to the room left before the limit (room-3..room+3) or absolute around the 1 KiB buffer, with 1-4-byte characters, and restarts; the real CompoundPolicy(SizeTrigger, FixedWindowRoller) is wrapped in a harness Policy recording len_estimate and fs::metadata().len() at every consultation. Oracle: exactly one consultation per append; len_estimate == on-disk size == model size (pre-existing + records; 0 at open in truncate mode); rotation during this append iff size > N; afterwards the active file is absent or <= N bytes and byte-identical to pre-existing ++ records; the newest archive equals the rolled content. The configured path may be a symbolic link to the pre-existing file. Part long: 70 000 appends of 10 bytes through one open file whose limit is reached after 65 540 of them, accounting checked at every consultation. Part self-archiving: a user-defined policy that closes the file with LogFile::roll(), reads the size once more and moves the file itself: the size shown before and after roll() equals the file's. Scripted roller failures may happen after the real roller archived the file. Part huge: sparse pre-existing files and limits around 4-20 GiB, three appends each, same accounting. Part pre-processing: a user-defined pre-processing policy around the real size trigger and a roller failing on scripted calls: consulted before the record is written, it must be shown the true size every time, also right after a failed roll made the appender close its file. Part contended: 2-4 threads append through one appender whose encoder hands records over in pieces and dawdles; at every consultation len_estimate == on-disk size and the file is rolled iff that size > N. non-trivial = a consultation with |size - N| <= 1, or pre-existing content in append mode, or multi-byte payload, or a scripted roller failure (user-defined roller around the real one that fails on chosen calls and leaves the file in place: accounting and re-triggering must stay exact)".into(),
         assumptions: vec!["foreground rotation build".into()],
         mutants_caught: vec![],
     }
